@@ -18,7 +18,7 @@ pub fn words() -> Vec<String> {
 
 pub fn tokens() -> Vec<String> {
     vec![
-        "".into(), " ".into(), "x".into(), "probe".into(), "ptok".into(), "k".into(), "-1".into(), "0".into(), "1".into(), "-2".into(),
+        "".into(), " ".into(), "x".into(), "probe".into(), "ptok".into(), "k".into(), "k_x".into(), "-1".into(), "0".into(), "1".into(), "-2".into(),
         "2147483647".into(), "2147483648".into(), "-2147483648".into(), "-2147483649".into(), "4294967296".into(),
         "18446744073709551615".into(), "18446744073709551616".into(),
         "340282366920938463463374607431768211455".into(), "340282366920938463463374607431768211456".into(),
@@ -42,6 +42,11 @@ pub struct Case {
     pub lines: Vec<String>,
     /// how many times the LAST line is sent back-to-back without the client channel being drained (pipelined lines)
     pub repeat: u32,
+    /// 0 = a node with one plain database; 1 = a node in a richer state: the probe database uses the arbiter strategy, an
+    /// arbiter client and a watcher are connected, keys k and k_x have been written several times, one conflict on k_x is
+    /// waiting for the arbiter (commands whose handlers only do something in such a state)
+    #[serde(default)]
+    pub world: u8,
 }
 
 fn line_strategy() -> impl Strategy<Value = String> {
@@ -61,7 +66,8 @@ fn line_strategy() -> impl Strategy<Value = String> {
 
 pub fn case_strategy() -> impl Strategy<Value = Case> {
     (select(vec![Auth::None, Auth::Admin, Auth::AdminDb, Auth::DbToken]), prop::collection::vec(line_strategy(), 1..5), prop_oneof![6 => Just(1u32), 1 => Just(101u32), 1 => Just(150u32)])
-        .prop_map(|(auth, lines, repeat)| Case { auth, lines, repeat })
+        .prop_map(|(auth, lines, repeat)| Case { auth, lines, repeat, world: 0 })
+        .prop_flat_map(|c| prop_oneof![2 => Just(0u8), 1 => Just(1u8)].prop_map(move |w| Case { world: w, ..c.clone() }))
 }
 
 fn always_virtual(_ns: u64) -> bool {
@@ -108,10 +114,30 @@ pub fn run_case(ctx: &Ctx, case: &Case) -> Outcome {
     let mut node = Node::boot_single(&dir);
     let mut admin = Session::new();
     admin.auth(&node);
-    admin.send(&node, "create-db probe ptok");
+    admin.send(&node, if case.world == 1 { "create-db probe ptok arbiter" } else { "create-db probe ptok" });
     admin.send(&node, "use-db probe ptok");
     admin.send(&node, "set k 1");
     admin.send(&node, "create-db other-db otok");
+    // sessions that stay connected for the whole case in the richer world
+    let mut _bystanders: Vec<Session> = vec![];
+    if case.world == 1 {
+        for i in 0..8 {
+            admin.send(&node, &format!("set k v{}", i));
+            admin.send(&node, &format!("set k_x w{}", i));
+        }
+        let mut arb = Session::new();
+        arb.auth(&node);
+        arb.send(&node, "use-db probe ptok");
+        arb.send(&node, "arbiter");
+        let mut watcher = Session::new();
+        watcher.send(&node, "use-db probe ptok");
+        watcher.send(&node, "watch k");
+        watcher.send(&node, "watch k_x");
+        let mut writer = Session::new();
+        writer.send(&node, "use-db probe ptok");
+        writer.send(&node, "set-safe k_x 0 first-conflict");
+        _bystanders = vec![arb, watcher, writer];
+    }
     node.pump();
     let mut s = Session::new();
     match case.auth {
@@ -218,7 +244,7 @@ fn short(s: &str) -> String {
 fn systematic() -> Vec<Case> {
     let fill = ["probe", "5", "k", "7", "v"];
     let mut out = vec![];
-    for auth in [Auth::None, Auth::Admin, Auth::AdminDb, Auth::DbToken] {
+    for (world, auth) in [(0u8, Auth::None), (0, Auth::Admin), (0, Auth::AdminDb), (0, Auth::DbToken), (1, Auth::AdminDb), (1, Auth::DbToken)] {
         for w in words() {
             for pos in 0..4usize {
                 for t in tokens() {
@@ -226,22 +252,22 @@ fn systematic() -> Vec<Case> {
                     for i in 0..=pos.max(2) {
                         parts.push(if i == pos { t.clone() } else { fill[i].to_string() });
                     }
-                    out.push(Case { auth: auth.clone(), lines: vec![parts.join(" ")], repeat: 1 });
+                    out.push(Case { auth: auth.clone(), lines: vec![parts.join(" ")], repeat: 1, world });
                     // and with the token as the LAST argument (exact arity)
                     let mut exact: Vec<String> = vec![w.clone()];
                     for i in 0..pos {
                         exact.push(fill[i].to_string());
                     }
                     exact.push(t.clone());
-                    out.push(Case { auth: auth.clone(), lines: vec![exact.join(" ")], repeat: 1 });
+                    out.push(Case { auth: auth.clone(), lines: vec![exact.join(" ")], repeat: 1, world });
                 }
             }
             // and with too few arguments
-            out.push(Case { auth: auth.clone(), lines: vec![w.clone()], repeat: 1 });
-            out.push(Case { auth: auth.clone(), lines: vec![format!("{} ", w)], repeat: 1 });
-            out.push(Case { auth: auth.clone(), lines: vec![format!("{} x", w)], repeat: 150 });
+            out.push(Case { auth: auth.clone(), lines: vec![w.clone()], repeat: 1, world });
+            out.push(Case { auth: auth.clone(), lines: vec![format!("{} ", w)], repeat: 1, world });
+            out.push(Case { auth: auth.clone(), lines: vec![format!("{} x", w)], repeat: 150, world });
             // the same wrapped as a replication envelope, pipelined beyond the capacity of the client channel
-            out.push(Case { auth: auth.clone(), lines: vec![format!("rp 5 {} k", w)], repeat: 150 });
+            out.push(Case { auth: auth.clone(), lines: vec![format!("rp 5 {} k", w)], repeat: 150, world });
         }
     }
     out
